@@ -304,15 +304,56 @@ def _defaults(db, chk, cg):
 
 def _link(db, chk, cs):
     lk = cs.func("CallStackGraph._link_cpu_and_gpu")
-    calls = [c for c in H.calls(lk) if isinstance(c.func, ast.Attribute) and c.func.attr == "_add_edge"]
-    loops = [n for n in ast.walk(lk) if isinstance(n, ast.For) and isinstance(n.target, ast.Tuple) and len(n.target.elts) == 2]
-    proj = [n for n in ast.walk(lk) if isinstance(n, ast.List) and [H.str_const(e) for e in n.elts] == ["cpu_index", "gpu_index"]]
-    ok = len(calls) == 1 and len(loops) == 1 and len(proj) == 1 and [ast.unparse(a) for a in calls[0].args] == [H.name_id(loops[0].target.elts[0]), H.name_id(loops[0].target.elts[1]), "DeviceType.GPU"]
-    chk.ob("C13.R3-link-direction", "each device activity becomes a child of the host call linked to it, as a GPU node", ok, cs.loc(lk), found=[ast.unparse(c) for c in calls], accepted="self._add_edge(cpu_index, gpu_index, DeviceType.GPU)",
+    # decided by evaluating _link_cpu_and_gpu on symbolic link / event frames: which (parent, child, device) triples reach _add_edge, for which link rows
+    CORR, DFT = ("param", "CORR"), ("param", "DF")
+    edges = []
+
+    def hook(I, name, pos, kw, node):
+        if name.endswith("_add_edge"):
+            edges.append(([to_term(p_) for p_ in pos], {k: to_term(v) for k, v in kw.items()}))
+            return None
+        return NotImplemented
+    ae_params = [p_ for p_ in H.param_names(cs.func("CallStackGraph._add_edge")) if p_ != "self"]
+    try:
+        runs = [r for r in Interp(db, call_hook=hook).explore(f"{CS}:CallStackGraph._link_cpu_and_gpu", lambda I: {"self": Obj("self", cls=(cs, "CallStackGraph"), attrs={
+            "correlations": Frame(CORR, known=["cpu_index", "gpu_index"]), "df": Frame(DFT)})}) if r.raised is None]
+    except AnalysisError:
+        runs = []
+    ok = okrows = None
+    found_e, found_r = f"{len(runs)} path(s), {len(edges)} _add_edge call(s)", None
+    if len(runs) == 1 and len(edges) == 1 and len(ae_params) >= 3:
+        pos, kw = edges[0]
+        b = dict(zip(ae_params, pos))
+        b.update(kw)
+        par, kid, dev = b.get(ae_params[0]), b.get(ae_params[1]), b.get(ae_params[2])
+
+        def column_of(t):
+            """the link column a row field stands for: row[i] of frame.to_numpy() / an itertuples attribute / a zip over column lists"""
+            if isinstance(t, tuple) and len(t) == 3 and t[0] == "getitem" and isinstance(t[1], tuple) and t[1][0] == "elem" and t[1][1][0] == "to_numpy" and T.is_const(t[2]):
+                cols = t[1][1][2]
+                return (cols[t[2][1]][1], t[1][1][1]) if isinstance(t[2][1], int) and 0 <= t[2][1] < len(cols) else None
+            if isinstance(t, tuple) and len(t) == 3 and t[0] == "at" and t[1] == ("row",):
+                return (t[2], None)
+            return None
+        cp, ck = column_of(par), column_of(kid)
+        found_e = [T.show(x)[:100] for x in (par, kid, dev)]
+        if cp is not None and ck is not None:
+            if cp[0] == T.col(CORR, "cpu_index") and ck[0] == T.col(CORR, "gpu_index") and dev == ("enum", "DeviceType", "GPU"):
+                ok = True
+            elif (cp[0] == T.col(CORR, "gpu_index") and ck[0] == T.col(CORR, "cpu_index")) or (isinstance(dev, tuple) and dev and dev[0] == "enum" and dev != ("enum", "DeviceType", "GPU")):
+                ok = False
+            ctx = cp[1] or ck[1]
+            if ctx is None:
+                walks = [e for e in runs[0].events if e["kind"] == "row-walk"]
+                ctx = walks[0]["ctx"] if len(walks) == 1 else None
+            if isinstance(ctx, tuple) and len(ctx) == 3 and ctx[0] == CORR:
+                found_r = T.show(ctx[1])[:160]
+                want_rows = ("in", T.col(CORR, "cpu_index"), ("valuesof", T.col(DFT, "index"), (DFT, T.TRUE, None)))
+                okrows = True if ctx[1] == want_rows else (False if ctx[1] == T.TRUE or ctx[1] == ("in", T.col(CORR, "gpu_index"), want_rows[2]) else None)
+    chk.ob("C13.R3-link-direction", "each device activity becomes a child of the host call linked to it, as a GPU node", ok, cs.loc(lk), found=found_e, accepted="self._add_edge(cpu_index, gpu_index, DeviceType.GPU)",
            why="the reverse direction makes the launch call a child of its kernel; a CPU device type gives kernels height 1")
-    sel = [n for n in ast.walk(lk) if isinstance(n, ast.Call) and isinstance(n.func, ast.Attribute) and n.func.attr == "isin"]
-    chk.ob("C13.R3-link-direction", "only links whose launch call belongs to this thread are added", len(sel) == 1 and "cpu_index" in ast.unparse(sel[0].func.value) and "self.df['index']" in ast.unparse(sel[0].args[0]), cs.loc(lk),
-           found=[ast.unparse(s) for s in sel], accepted="self.correlations['cpu_index'].isin(self.df['index'])")
+    chk.ob("C13.R3-link-direction", "only links whose launch call belongs to this thread are added", okrows, cs.loc(lk),
+           found=found_r or found_e, accepted="self.correlations['cpu_index'].isin(self.df['index'])")
     ae = cs.func("CallStackGraph._add_edge")
     chk.analysed_add("functions", [f"{CS}:CallStackGraph._link_cpu_and_gpu"])
 
